@@ -24,6 +24,10 @@ def cbarg_expr(prog, a, av):
     return value_expr(prog, a, av)
 
 
+class JsBytes(bytes):
+    """the UTF-8 bytes Rust is expected to see for a JS string given as UTF-16 code units (attribute js16)"""
+
+
 class Script:
     def __init__(self, prog, rng, lang="c"):
         self.prog = prog
@@ -85,8 +89,24 @@ class Script:
             return [r.choice([0, 0x41, 0xd800, 0xdc00, 0xffff, 0x20ac, 0xfeff, r.getrandbits(16)]) for _ in range(n)]          # lone surrogates and a (leading) U+FEFF are ordinary code units of an unvalidated UTF-16 string
         if enc == "utf8":
             return r.choice(["", "", "a", "héllo", "€uro", "😀", "a\u0000b", "ascii only text", "߿￿\U0010ffff"]).encode("utf-8")
+        if self.lang == "js" and r.random() < 0.15:
+            # an ill-formed JS string (unpaired surrogates): the binding encodes it with TextEncoder semantics, every unpaired surrogate
+            # becomes U+FFFD and the byte length it allocates has to agree with what the encoder writes (seed C16-j)
+            units = r.choice([[0x61, 0xD83D, 0xE9], [0xD800, 0xD800], [0xD83D, 0x20AC, 0x62], [0xDC00, 0x41], [0x41, 0xD83D], [0xD83D, 0xDE00, 0xD83D, 0x416]])
+            out, i = [], 0
+            while i < len(units):
+                u = units[i]
+                if 0xD800 <= u < 0xDC00 and i + 1 < len(units) and 0xDC00 <= units[i + 1] < 0xE000:
+                    out.append(chr(0x10000 + ((u - 0xD800) << 10) + (units[i + 1] - 0xDC00)))
+                    i += 2
+                    continue
+                out.append("\ufffd" if 0xD800 <= u < 0xE000 else chr(u))
+                i += 1
+            b = JsBytes("".join(out).encode("utf-8"))
+            b.js16 = units
+            return b
         if self.lang == "js":
-            # a JS string is the only way to pass a DiplomatStr from JS: always well-formed
+            # otherwise well-formed: a JS string is the only way to pass a DiplomatStr from JS
             return r.choice(["", "", "a", "h\u00e9", "\u20acuro", "\U0001f600", "plain", "x\u0000y"]).encode("utf-8")
         # unvalidated: may be invalid UTF-8
         return r.choice([b"", b"", b"a", b"\xff\xfe", b"h\xc3\xa9", b"\xed\xa0\x80", b"\x00", b"plain", bytes(r.getrandbits(8) for _ in range(r.randint(1, 9)))])
